@@ -77,6 +77,15 @@ def parts(tier):
             cases=1600 if q else 50000, batch=200,
         ),
         core.Part(
+            'faults', execute,
+            strategy=sim.histories(
+                weights={'rereq': 2, 'dbfault': 3, 'requp': 3},
+                spec_kw={'min_algs': 2,
+                         'kinds': ('task', 'task', 'analysis', 'analysis',
+                                   'regress')}),
+            cases=400 if q else 12500, batch=200,
+        ),
+        core.Part(
             'timers', execute,
             strategy=sim.histories(weights={'rereq': 2, 'timer': 8},
                                    spec_kw={'min_algs': 2, 'events': True}),
